@@ -15,6 +15,7 @@ import (
 	"os"
 	"strings"
 	"sync"
+	"sync/atomic"
 	"time"
 
 	"github.com/canonical/sqlair"
@@ -224,7 +225,17 @@ func (w *txWorld) events(marker int) []string {
 	return out
 }
 
+// txClosedStmt: set by the tx command; called with every error that says the prepared statement of a call on a
+// transaction was closed underneath it (C10: while the caller holds the Statement, the DB and the Query no
+// operation fails because its prepared statement was closed; after the end of the TX the failure is ErrTXDone).
+var txClosedStmt atomic.Value // func(string)
+
 func txErrClass(err error) string {
+	if err != nil && strings.Contains(err.Error(), "statement is closed") {
+		if f, ok := txClosedStmt.Load().(func(string)); ok {
+			f(err.Error())
+		}
+	}
 	switch {
 	case err == nil:
 		return "ok"
@@ -598,6 +609,10 @@ func cmdTx(args []string) int {
 		vmu.Unlock()
 	}
 	go watchdog(addViol)
+	txClosedStmt.Store(func(msg string) {
+		req, _ := currentCase.Load().(string)
+		addViol(violation{"C10", "operation-failed-statement-closed", hx(req), "on a transaction: " + msg})
+	})
 	r := newRng(*seed)
 	cases, _ := os.Create(*outDir + "/cases.txt")
 	impl, _ := os.Create(*outDir + "/impl.txt")
